@@ -7,6 +7,7 @@ import (
 	"go/ast"
 	"go/token"
 	"go/types"
+	"sort"
 	"strings"
 
 	"golang.org/x/tools/go/ssa"
@@ -65,6 +66,12 @@ func (fv *FuncVC) doCall(in ssa.Instruction, c *ssa.CallCommon, args []*Val, clo
 				binds = v.Bind
 				keys = []string{funcKey(callee)}
 			}
+		}
+	}
+	if callee == nil && !c.IsInvoke() {
+		// a call through a value of a named function type under contract
+		if k := fv.g.funcTypeKey(c.Value.Type()); k != "" {
+			keys = []string{k}
 		}
 	}
 	ord := 0
@@ -215,6 +222,8 @@ func (fv *FuncVC) applyContract(con *Contract, callee *ssa.Function, c *ssa.Call
 		}
 	}
 	// preconditions
+	partialCaller := fv.con != nil && fv.con.Partial
+	var preAll []string
 	for i, r := range con.Requires {
 		if r.Free {
 			continue
@@ -226,8 +235,15 @@ func (fv *FuncVC) applyContract(con *Contract, callee *ssa.Function, c *ssa.Call
 			label = fmt.Sprintf("%d", i+1)
 		}
 		props := fv.propsFor(r)
-		fv.oblige("call-pre", fmt.Sprintf("%s#%d#%s", key, ord, label), props, t.T, r.Src, fv.posStr(pos))
-		fv.assume(t.T)
+		ob := fv.oblige("call-pre", fmt.Sprintf("%s#%d#%s", key, ord, label), props, t.T, r.Src, fv.posStr(pos))
+		if partialCaller {
+			// partial caller: the precondition is not taken for granted afterwards; the callee's
+			// postcondition is used under it
+			ob.Abstract = true
+			preAll = append(preAll, t.T)
+		} else {
+			fv.assume(t.T)
+		}
 	}
 	if fv.inGo && con.Thread {
 		// detached thread: started once its precondition holds; what it does afterwards is concurrent
@@ -266,10 +282,18 @@ func (fv *FuncVC) applyContract(con *Contract, callee *ssa.Function, c *ssa.Call
 			}
 		}
 	}
+	preOK := ""
+	if len(preAll) > 0 {
+		preOK = fv.name("pre."+sanitize(key), "Bool", and(preAll...))
+	}
 	for _, e := range con.Ensures {
 		t := post.tr(e.Expr)
 		fv.reportSpecErrs(post, e)
-		fv.assume(t.T)
+		if preOK != "" {
+			fv.assume(implies(preOK, t.T))
+		} else {
+			fv.assume(t.T)
+		}
 	}
 	return res
 }
@@ -337,6 +361,18 @@ func (fv *FuncVC) resolveModifies(con *Contract, env *Env) []modTarget {
 			fv.unsupp("bad modifies designator %q", d)
 			continue
 		}
+		// "allghosts - g1 - g2": every ghost except the named ones
+		excl := map[string]bool{}
+		for {
+			be, ok := x.(*ast.BinaryExpr)
+			if !ok || be.Op != token.SUB {
+				break
+			}
+			if id, ok := be.Y.(*ast.Ident); ok {
+				excl[id.Name] = true
+			}
+			x = be.X
+		}
 		switch n := x.(type) {
 		case *ast.Ident:
 			switch n.Name {
@@ -345,6 +381,21 @@ func (fv *FuncVC) resolveModifies(con *Contract, env *Env) []modTarget {
 				continue
 			case "once":
 				add("ONCE", "(Array Int Bool)", "")
+				continue
+			case "allghosts":
+				var gn []string
+				for name := range g.spec.Ghosts {
+					gn = append(gn, name)
+				}
+				sort.Strings(gn)
+				for _, name := range gn {
+					if excl[name] {
+						continue
+					}
+					if t := g.resolveType(g.spec.Ghosts[name]); t != nil {
+						add("GH$"+name, fv.sortOf(t), "")
+					}
+				}
 				continue
 			case "locks":
 				// only the mutexes the contract talks about (held(...) in ensures) may change state
